@@ -195,6 +195,8 @@ type client struct {
 	status       int32
 	// if 1, when client close, the session expiry interval will be ignored and the session will be removed.
 	forceRemoveSession int32
+	// authStep releases readLoop for one more packet while an enhanced authentication is in progress
+	authStep chan struct{}
 	error              chan error
 	errOnce            sync.Once
 	err                error
@@ -409,6 +411,7 @@ func (client *client) tryDecServerQuota() error {
 
 func (client *client) readLoop() {
 	var err error
+	var early []packets.Packet
 	srv := client.server
 	defer func() {
 		if re := recover(); re != nil {
@@ -442,7 +445,18 @@ func (client *client) readLoop() {
 			}
 		}
 		client.in <- packet
-		<-client.connected
+		select {
+		case <-client.connected:
+		case <-client.authStep:
+			// an enhanced authentication is in progress: the next AUTH packet has to be read before
+			// connectWithTimeOut can finish. The packet is counted once the client id is known.
+			early = append(early, packet)
+			continue
+		}
+		for _, p := range early {
+			srv.statsManager.packetReceived(p, client.opts.ClientID)
+		}
+		early = nil
 		srv.statsManager.packetReceived(packet, client.opts.ClientID)
 		if client.server.config.Log.DumpPacket {
 			if ce := zaplog.Check(zapcore.DebugLevel, "received packet"); ce != nil {
@@ -630,6 +644,11 @@ func (client *client) connectWithTimeOut() (ok bool) {
 						AuthMethod: conn.Properties.AuthMethod,
 						AuthData:   authData,
 					},
+				}
+				// let readLoop read the client's answer
+				select {
+				case client.authStep <- struct{}{}:
+				default:
 				}
 				continue
 			}
